@@ -70,32 +70,32 @@ inductive Align (D N : List String) : List Instr → List Instr → Prop
   | del {i : Instr} {r r' : List Instr} : isDel D i = true → Align D N r r' → Align D N (i :: r) r'
   | ins {i' : Instr} {r r' : List Instr} : isIns N i' = true → Align D N r r' → Align D N r (i' :: r')
 
-theorem alignB_sound (D N : List String) : ∀ (l l' : List Instr), alignB D N l l' = true → Align D N l l' := by
-  intro l l'
-  fun_induction alignB D N l l' with
-  | case1 => intro _; exact .nil
-  | case2 i r ih =>
-    intro h
-    simp only [Bool.and_eq_true] at h
-    exact .del h.1 (ih h.2)
-  | case3 i' r' ih =>
-    intro h
-    simp only [Bool.and_eq_true] at h
-    exact .ins h.1 (ih h.2)
-  | case4 i r i' r' hk ih =>
-    intro h
-    obtain ⟨he, ha⟩ := hk
-    subst he
-    exact .keep ha (ih h)
-  | case5 i r i' r' hk hd ih =>
-    intro h
-    exact .del hd (ih h)
-  | case6 i r i' r' hk hd hi ih =>
-    intro h
-    exact .ins hi (ih h)
-  | case7 i r i' r' hk hd hi =>
-    intro h; exact absurd h (by simp)
+theorem alignF_sound (D N : List String) : ∀ (n : Nat) (l l' : List Instr), alignF D N n l l' = true → Align D N l l'
+  | 0, _, _, h => by simp [alignF] at h
+  | _ + 1, [], [], _ => .nil
+  | n + 1, i :: r, [], h => by
+    simp only [alignF, Bool.and_eq_true] at h
+    exact .del h.1 (alignF_sound D N n r [] h.2)
+  | n + 1, [], i' :: r', h => by
+    simp only [alignF, Bool.and_eq_true] at h
+    exact .ins h.1 (alignF_sound D N n [] r' h.2)
+  | n + 1, i :: r, i' :: r', h => by
+    simp only [alignF] at h
+    split at h
+    · rename_i hk
+      obtain ⟨he, ha⟩ := hk
+      subst he
+      exact .keep ha (alignF_sound D N n r r' h)
+    · split at h
+      · rename_i hd
+        exact .del hd (alignF_sound D N n r (i' :: r') h)
+      · split at h
+        · rename_i hi
+          exact .ins hi (alignF_sound D N n (i :: r) r' h)
+        · simp at h
 
+theorem alignB_sound (D N : List String) (l l' : List Instr) (h : alignB D N l l' = true) : Align D N l l' :=
+  alignF_sound D N _ l l' h
 
 /-! ### static relation between the two modules -/
 
